@@ -7,7 +7,11 @@ res = {}
 for line in open(os.path.join(root, 'seeded', 'RESULTS.md')):
     m = re.match(r'\| (C\d\d-m\d) \| (C\d\d) \| (\w+) \| ([^|]*) \| ([^|]*) \|', line)
     if m:
-        res[m.group(1)] = (m.group(2), m.group(3), m.group(4).strip(), m.group(5).strip())
+        row = (m.group(2), m.group(3), m.group(4).strip(), m.group(5).strip())
+        prev = res.get(m.group(1))
+        # a change may be run against a second check (seeded/ALSO.txt): the row that reports violations wins
+        if prev is None or (prev[2] in ('', '0', 'n/a') and row[1] == 'pass'):
+            res[m.group(1)] = row
 print('| change | what it breaks (from its meta.json) | caught by | first miss -> what was strengthened |')
 print('|---|---|---|---|')
 notes = json.load(open(os.path.join(root, 'seeded', 'NOTES.json'))) if os.path.exists(os.path.join(root, 'seeded', 'NOTES.json')) else {}
